@@ -206,6 +206,8 @@ def configs(tier):
     out = []
     for n in range(1, N + 1):
         out.append({'name': 'eq-n%d' % n, 'task': 'equality', 'args': {'n': n}, 'weight': n})
+    for n in ((8,) if tier == 'quick' else (8, 10)):      # size thresholds: long vectors (2^n paths)
+        out.append({'name': 'eq-n%d' % n, 'task': 'equality', 'args': {'n': n}, 'weight': 2 ** n, 'split': 32})
     for n in (1, 2, 3):
         for k in range(1, K + 1):
             if tier == 'quick' and n == 3 and k == 3:
